@@ -21,6 +21,7 @@ import (
 
 	"github.com/EliCDavis/bitlib"
 	"github.com/EliCDavis/iter"
+	"github.com/EliCDavis/polyform/math/trs"
 	"github.com/EliCDavis/polyform/modeling"
 	"github.com/EliCDavis/vector/vector3"
 )
@@ -314,6 +315,54 @@ func (w *Writer) verifControlStartGood(data *iter.ArrayIterator[vector3.Float64]
 	return Accessor{Max: []float64{max.X(), max.Y(), max.Z()}, Min: []float64{lo}}
 }
 
+// ---- INST-1
+
+func (w *Writer) verifControlInstBad(n *Node, list []trs.TRS) {
+	if len(list) > 1 { // a single instance loses its transform
+		n.Extensions = map[string]any{}
+		n.Extensions[extGpuInstancingID] = ExtGpuInstancing{Attributes: map[string]int{}}
+		w.extensionsUsed[extGpuInstancingID] = true
+	}
+}
+
+func (w *Writer) verifControlInstGood(n *Node, list []trs.TRS) {
+	if len(list) == 0 {
+		return
+	}
+	n.Extensions = map[string]any{}
+	n.Extensions[extGpuInstancingID] = ExtGpuInstancing{Attributes: map[string]int{}}
+	w.extensionsUsed[extGpuInstancingID] = true
+}
+
+// ---- EQ-1
+
+type verifControlEqT struct {
+	A *float64
+	B string
+}
+
+func (p *verifControlEqT) verifControlEqBad(o *verifControlEqT) bool {
+	if p.A != nil && o.A != nil && *p.A != *o.A { // unset equals anything
+		return false
+	}
+	return p.B == o.B
+}
+
+func (p *verifControlEqT) verifControlEqGood(o *verifControlEqT) bool {
+	switch {
+	case p.A == nil && o.A == nil:
+	case p.A == nil || o.A == nil:
+		return false
+	case *p.A != *o.A:
+		return false
+	}
+	return p.B == o.B
+}
+
+func verifControlEqUse(a, b *verifControlEqT) (bool, float64, string) {
+	return a.verifControlEqBad(b) && a.verifControlEqGood(b), *a.A, a.B
+}
+
 // ---- SINK-1 / BUF-1
 
 func verifControlSinkBad() *Writer {
@@ -422,6 +471,10 @@ var ctlCases = []ctlCase{
 	{"REF-2", "verifControlRootGood", ob.Holds},
 	{"MINMAX-1", "verifControlStartBad", ob.Violation},
 	{"MINMAX-1", "verifControlStartGood", ob.Holds},
+	{"INST-1", "verifControlInstBad", ob.Violation},
+	{"INST-1", "verifControlInstGood", ob.Holds},
+	{"EQ-1", "verifControlEqBad", ob.Violation},
+	{"EQ-1", "verifControlEqGood", ob.Holds},
 	{"SINK-1", "verifControlSinkBad", ob.Violation},
 	{"SINK-1", "verifControlSinkGood", ob.Holds},
 	{"BUF-1", "verifControlBufBad", ob.Violation},
